@@ -487,6 +487,11 @@ def main():
     log = ConsolePrinter(args)
     validateargs(args, log)
     change_path = YAMLPath(args.change, pathsep=args.pathsep)
+    try:
+        # Parsing is lazy; reject an invalid YAML Path before going further
+        len(change_path)
+    except YAMLPathException as ex:
+        log.critical(ex, 1)
     must_exist=args.mustexist or args.saveto
 
     # Obtain the replacement value
